@@ -18,3 +18,28 @@ PROPS["C12"] = dict(
                   "kernel cBPF semantics = x/net/bpf VM semantics (not verified)"],
     assumptions=["programs are the ones getClassicBPFFilter returns on this tree (regenerated each run)"],
 )
+
+ENG_RULE = ("Real TracerouteParallel/TracerouteSerial run under testing/synctest's virtual clock against a scripted network "
+            "(script entry = TTL, delay after that TTL's send, responder, destination flag, reply|noise). Enumerated: every reply multiset "
+            "(none / plain / dest / plain+dest / plain+plain per TTL, <= 4 replies) x every arrival order x both engines for 1..3 TTLs; "
+            "random: first/last incl. 250..255 and single-TTL ranges, 0..3 replies per TTL incl. stale/late/after-deadline, several destination TTLs, "
+            "noise, shuffled script order. Compared: hop list, accepted sequence, (ttl, send instant) log, elapsed virtual ns.")
+ENG_TRUSTED = ["scripted driver + synctest virtual clock in /verif/harness (the engine code under test is the repository's own)",
+               "goroutine scheduling inside one virtual instant is not modelled: cases where two events coincide are reported by the model as ties and skipped (counted in class_histogram, classes >= 64)"]
+
+PROPS["C03"] = dict(
+    num=3, labs=["eng"], rule=ENG_RULE,
+    nontrivial="at least one reply accepted by the engine (class bits 1..3 != 0)",
+    trivial_classes=[0, 1, 64, 65],
+    signatures={"3": "reported hop list violates the path-shape predicate (Spec/C03.v shapeb)", "9": "a valid scripted run returned an error"},
+    trusted_base=ENG_TRUSTED,
+    assumptions=["accepted replies are what the driver handed to the engine (recorded by the scripted driver)"],
+)
+PROPS["C07"] = dict(
+    num=7, labs=["eng"], rule=ENG_RULE,
+    nontrivial="at least one reply accepted by the engine",
+    trivial_classes=[0, 1, 64, 65],
+    signatures={"7": "a reported hop is not (earliest destination reply for its TTL, else earliest reply)", "9": "a valid scripted run returned an error"},
+    trusted_base=ENG_TRUSTED + ["atomicity of writeProbe (runs under resultsMu) is an assumption of the transition system, supported by C14"],
+    assumptions=["Go scheduler not modelled; the transition system's steps are the atomic actions of the Go code"],
+)
